@@ -25,7 +25,8 @@ from icalendar.timezone import tzp
 FREQS = ("SECONDLY", "MINUTELY", "HOURLY", "DAILY", "WEEKLY", "MONTHLY", "YEARLY")
 UTC = timezone.utc
 PARTS = {
-    "UNTIL": (("date", 2025, 12, 31), ("naive", 2025, 12, 31, 23, 59, 59), ("utc", 2025, 12, 31, 23, 59, 59)),
+    "UNTIL": (("date", 2025, 12, 31), ("naive", 2025, 12, 31, 23, 59, 59), ("utc", 2025, 12, 31, 23, 59, 59),
+              ("utc", 999, 1, 2, 3, 4, 5), ("date", 33, 4, 3)),  # years that need zero padding
     "COUNT": (1, 10),
     "INTERVAL": (1, 2, 13),
     "BYSECOND": (0, (0, 30), 59),
